@@ -181,9 +181,100 @@ def _pos_list(k, n):
     return [x % n], False
 
 
-class Series:
+
+# ------------------------------------------------------------------ generic fallback for un-modelled pandas API
+# Same idea as np_model.lifted: an attribute this model lacks is served by the REAL pandas on an object-dtype copy holding the very same
+# (possibly symbolic) cells; the result is converted back.  Never reached on the unchanged tree; results are subject to real-stack replay.
+def _pd_to_real(x):
+    import pandas as pd
+    if isinstance(x, Series):
+        return pd.Series(list(x._values), index=pd.Index(list(x._index), dtype=object) if x._index else None, name=x.name, dtype=object)
+    if isinstance(x, DataFrame):
+        idx = pd.Index(list(x._index), dtype=object)
+        return pd.DataFrame({n: pd.Series(list(x._cols[n]), index=idx, dtype=object) for n in x._names}, index=idx, columns=list(x._names))
+    if isinstance(x, Index):
+        return pd.Index(list(x._values), dtype=object)
+    if isinstance(x, NDArray):
+        return npm._to_real(x)
+    if isinstance(x, tuple):
+        return tuple(_pd_to_real(v) for v in x)
+    if isinstance(x, list) and any(isinstance(v, (Series, DataFrame, NDArray)) for v in x):
+        return [_pd_to_real(v) for v in x]
+    if isinstance(x, dict) and any(isinstance(v, (Series, DataFrame, NDArray)) for v in x.values()):
+        return {k: _pd_to_real(v) for k, v in x.items()}
+    return x
+
+
+def _cell(v):
+    import numpy as _np
+    if isinstance(v, _np.generic):
+        v = v.item()
+    if isinstance(v, float) and v != v:
+        return None
+    return v
+
+
+def _pd_from_real(r):
+    import numpy as _np
+    import pandas as pd
+    if isinstance(r, pd.DataFrame):
+        return DataFrame._from_cols(list(r.columns), [[_cell(v) for v in r[c].tolist()] for c in r.columns], [_cell(v) for v in r.index.tolist()])
+    if isinstance(r, pd.Series):
+        return Series([_cell(v) for v in r.tolist()], [_cell(v) for v in r.index.tolist()], r.name)
+    if isinstance(r, pd.Index):
+        return Index([_cell(v) for v in r.tolist()])
+    if isinstance(r, _np.ndarray) or isinstance(r, _np.generic):
+        return npm._from_real(r)
+    if isinstance(r, tuple):
+        return tuple(_pd_from_real(v) for v in r)
+    if isinstance(r, list):
+        return [_pd_from_real(v) for v in r]
+    return r
+
+
+def _lifted_pd(get_real_attr, label):
+    def call(*a, **k):
+        npm.LIFTED.append(label)
+        fn = get_real_attr()
+        try:
+            res = fn(*[_pd_to_real(x) for x in a], **{n: _pd_to_real(v) for n, v in k.items()})
+        except ModelUnsupported:
+            raise
+        except Exception as e:  # noqa
+            raise ModelUnsupported(f"{label} through the real pandas: {type(e).__name__}: {str(e)[:160]}")
+        return _pd_from_real(res)
+    return call
+
+
+def _fallback_attr(model_obj, real_cls, name, label):
+    if name.startswith("_") or not hasattr(real_cls, name):
+        raise AttributeError(name)
+    if isinstance(getattr(real_cls, name), property) or not callable(getattr(real_cls, name)):
+        npm.LIFTED.append(label)
+        try:
+            return _pd_from_real(getattr(_pd_to_real(model_obj), name))
+        except Exception as e:  # noqa
+            raise ModelUnsupported(f"{label} through the real pandas: {type(e).__name__}: {str(e)[:160]}")
+    return _lifted_pd(lambda: getattr(_pd_to_real(model_obj), name), label)
+
+
+class _FallbackMeta(type):
+    """class-level attributes the model lacks (alternative constructors such as DataFrame.from_records)"""
+    def __getattr__(cls, name):
+        import pandas as pd
+        real_cls = {"Series": pd.Series, "DataFrame": pd.DataFrame}.get(cls.__name__)
+        if name.startswith("_") or real_cls is None or not hasattr(real_cls, name) or not callable(getattr(real_cls, name)):
+            raise AttributeError(name)
+        return _lifted_pd(lambda: getattr(real_cls, name), f"{cls.__name__}.{name}")
+
+
+class Series(metaclass=_FallbackMeta):
     __module__ = "pandas.core.series"
     __array_priority__ = 2000
+
+    def __getattr__(self, name):
+        import pandas as pd
+        return _fallback_attr(self, pd.Series, name, "Series." + name)
 
     def __init__(self, data=None, index=None, name=None, dtype=None):
         if isinstance(data, Series):
@@ -429,7 +520,7 @@ def _align_for_setitem(value, index):
     return out
 
 
-class DataFrame:
+class DataFrame(metaclass=_FallbackMeta):
     __module__ = "pandas.core.frame"
 
     def __init__(self, data=None, index=None, columns=None):
@@ -585,7 +676,8 @@ class DataFrame:
         cols = object.__getattribute__(self, "_cols")
         if name in cols:
             return Series(cols[name], object.__getattribute__(self, "_index"), name)
-        raise AttributeError(name)
+        import pandas as pd
+        return _fallback_attr(self, pd.DataFrame, name, "DataFrame." + name)
 
     def __setattr__(self, name, value):
         if name.startswith("_") or name in ("columns",):
